@@ -33,6 +33,12 @@ pub enum Case {
     /// G2: Z given as Fp2 (c0, c1); (0,0) = infinity
     G2Pair { k1: String, l1: [String; 2], k2: String, l2: [String; 2] },
     G2Unary { k: String, l: [String; 2] },
+    /// G1 point given by coordinates (x = 0 is a finite point: 5 is a square), held with Z = l
+    G1UnaryXY { x: String, y: String, l: String, tag: String },
+    /// the point at infinity written (ix : iy : 0) met with the finite point [k]P1 (Z = l)
+    G1InfOps { ix: String, iy: String, k: String, l: String },
+    /// the same in G2: (ix : iy : 0) over Fp2 met with [k]P2 (Z = l)
+    G2InfOps { ix: [String; 2], iy: [String; 2], k: String, l: [String; 2] },
     G2Mul { base: String, l: [String; 2], scalar: String, gmul: bool, tag: String },
 }
 
@@ -577,6 +583,64 @@ pub fn eval(ctx: &Ctx, case: &Case) {
             check!(ctx, "G2 TwistPoint::point_double", cls, cj, ref_g2(&pt.point_double()), sm9::g2_add(&r, &r), g2_str);
             check!(ctx, "G2 TwistPoint::point_neg", cls, cj, ref_g2(&pt.point_neg()), pr.e2.neg(&r), g2_str);
         }
+        Case::G1UnaryXY { x, y, l, tag } => {
+            let r: G1 = Some((hb(x), hb(y)));
+            let l = hb(l);
+            if !pr.e1.on_curve(&r) {
+                ctx.machinery_error("G1UnaryXY operand is not on the curve");
+                return;
+            }
+            let pt = lib_g1(&r, &l);
+            let cls = format!("{}/{}", tag, repc(&l));
+            check!(ctx, "G1 Point::point_double", cls, cj, ref_g1(&pt.point_double()), sm9::g1_add(&r, &r), g1_str);
+            check!(ctx, "G1 Point::point_neg", cls, cj, ref_g1(&pt.point_neg()), pr.e1.neg(&r), g1_str);
+            check!(ctx, "G1 Point::is_zero", cls, cj, pt.is_zero(), false, |b: &bool| b.to_string());
+            check!(ctx, "G1 Point::is_on_curve", cls, cj, pt.is_on_curve(), true, |b: &bool| b.to_string());
+            check!(ctx, "G1 Point::to_affine_point", cls, cj, { let a = pt.to_affine_point(); (ref_g1(&a), from_mont(&a.z).is_one()) }, (r.clone(), true), |x: &(G1, bool)| format!("{} z=1:{}", g1_str(&x.0), x.1));
+            check!(ctx, "G1 Point::to_bytes_be", cls, cj, pt.to_bytes_be(), { let mut v = vec![4u8]; v.extend_from_slice(&sm9::g1_bytes(&r)); v }, |x: &Vec<u8>| hex::encode(x));
+            check!(ctx, "G1 Point::point_add", format!("{}/2P+(-P)", cls), cj, { let q = pt.point_double().point_add(&pt.point_neg()); (ref_g1(&q), ref_g1(&q.to_affine_point()), q.point_equals(&pt)) }, (r.clone(), r.clone(), true), |x: &(G1, G1, bool)| format!("{} affine {} equals:{}", g1_str(&x.0), g1_str(&x.1), x.2));
+            check!(ctx, "G1 Point::point_sub", format!("{}/2P-P", cls), cj, ref_g1(&pt.point_double().point_sub(&pt)), r.clone(), g1_str);
+            let (_, g1) = g1rep(&BigUint::one(), &BigUint::one());
+            let gp = lib_g1(&g1, &BigUint::from(2u32));
+            check!(ctx, "G1 Point::point_add", format!("{}/P+P1", cls), cj, (ref_g1(&pt.point_add(&gp)), ref_g1(&gp.point_add(&pt))), (sm9::g1_add(&r, &g1), sm9::g1_add(&r, &g1)), |x: &(G1, G1)| format!("{} / {}", g1_str(&x.0), g1_str(&x.1)));
+            for kk in [BigUint::from(2u32), BigUint::from(3u32), &pr.n - 1u32, &pr.n + 1u32] {
+                check!(ctx, "G1 Point::point_mul", format!("{}/small-multiples", cls), cj, ref_g1(&pt.point_mul(&to_limbs(&kk))), sm9::g1_mul(&(&kk % &pr.n), &r), g1_str);
+            }
+        }
+        Case::G1InfOps { ix, iy, k, l } => {
+            let (k, l) = (hb(k), hb(l));
+            let o = Point { x: to_mont(&hb(ix)), y: to_mont(&hb(iy)), z: [0; 4] };
+            let (q, rq) = g1rep(&k, &l);
+            let cls = format!("infinity-as-(t^2:t^3:0)/{}", repc(&l));
+            check!(ctx, "G1 Point::point_add", format!("O+Q/{}", cls), cj, ref_g1(&o.point_add(&q)), rq.clone(), g1_str);
+            check!(ctx, "G1 Point::point_add", format!("Q+O/{}", cls), cj, ref_g1(&q.point_add(&o)), rq.clone(), g1_str);
+            check!(ctx, "G1 Point::point_sub", format!("Q-O/{}", cls), cj, ref_g1(&q.point_sub(&o)), rq.clone(), g1_str);
+            check!(ctx, "G1 Point::point_sub", format!("O-Q/{}", cls), cj, ref_g1(&o.point_sub(&q)), pr.e1.neg(&rq), g1_str);
+            check!(ctx, "G1 Point::point_add", format!("O+O/{}", cls), cj, ref_g1(&o.point_add(&o)), None, g1_str);
+            check!(ctx, "G1 Point::point_double", format!("2O/{}", cls), cj, ref_g1(&o.point_double()), None, g1_str);
+            check!(ctx, "G1 Point::point_neg", format!("-O/{}", cls), cj, ref_g1(&o.point_neg()), None, g1_str);
+            check!(ctx, "G1 Point::point_mul", format!("[3]O/{}", cls), cj, ref_g1(&o.point_mul(&[3, 0, 0, 0])), None, g1_str);
+            check!(ctx, "G1 Point::point_add", format!("(O+Q)+Q/{}", cls), cj, ref_g1(&o.point_add(&q).point_add(&q)), sm9::g1_add(&rq, &rq), g1_str);
+            check!(ctx, "G1 Point::is_zero", cls, cj, o.is_zero(), true, |b: &bool| b.to_string());
+            check!(ctx, "G1 Point::point_equals", cls, cj, (o.point_equals(&q), q.point_equals(&o), o.point_equals(&Point::zero())), (rq.is_none(), rq.is_none(), true), |b: &(bool, bool, bool)| format!("{:?}", b));
+        }
+        Case::G2InfOps { ix, iy, k, l } => {
+            let (k, l) = (hb(k), h2(l));
+            let o = hook::twist_point(lib_f2(&h2(ix)), lib_f2(&h2(iy)), lib_f2(&f2().zero()));
+            let (q, rq) = g2rep(&k, &l);
+            let cls = format!("infinity-as-(t^2:t^3:0)/{}", repc2(&l));
+            check!(ctx, "G2 TwistPoint::point_add", format!("O+Q/{}", cls), cj, ref_g2(&o.point_add(&q)), rq.clone(), g2_str);
+            check!(ctx, "G2 TwistPoint::point_add", format!("Q+O/{}", cls), cj, ref_g2(&q.point_add(&o)), rq.clone(), g2_str);
+            check!(ctx, "G2 twist_point_add_full", format!("O+Q/{}", cls), cj, ref_g2(&hook::twist_point_add_full(&o, &q)), rq.clone(), g2_str);
+            check!(ctx, "G2 twist_point_add_full", format!("Q+O/{}", cls), cj, ref_g2(&hook::twist_point_add_full(&q, &o)), rq.clone(), g2_str);
+            check!(ctx, "G2 TwistPoint::point_sub", format!("Q-O/{}", cls), cj, ref_g2(&q.point_sub(&o)), rq.clone(), g2_str);
+            check!(ctx, "G2 TwistPoint::point_sub", format!("O-Q/{}", cls), cj, ref_g2(&o.point_sub(&q)), pr.e2.neg(&rq), g2_str);
+            check!(ctx, "G2 TwistPoint::point_add", format!("O+O/{}", cls), cj, ref_g2(&o.point_add(&o)), None, g2_str);
+            check!(ctx, "G2 TwistPoint::point_double", format!("2O/{}", cls), cj, ref_g2(&o.point_double()), None, g2_str);
+            check!(ctx, "G2 TwistPoint::point_neg", format!("-O/{}", cls), cj, ref_g2(&o.point_neg()), None, g2_str);
+            check!(ctx, "G2 TwistPoint::point_mul", format!("[3]O/{}", cls), cj, ref_g2(&o.point_mul(&[3, 0, 0, 0])), None, g2_str);
+            check!(ctx, "G2 TwistPoint::point_add", format!("(O+Q)+Q/{}", cls), cj, ref_g2(&o.point_add(&q).point_add(&q)), sm9::g2_add(&rq, &rq), g2_str);
+        }
         Case::G2Mul { base, l, scalar, gmul, tag } => {
             let (bk, l, s) = (hb(base), h2(l), hb(scalar));
             if *gmul {
@@ -642,7 +706,7 @@ pub fn run(ctx: &Arc<Ctx>) {
     let _ = frob_images();
     let pr = sm9::params();
     let (pp, n) = (pr.p.clone(), pr.n.clone());
-    ctx.set_rule("Fp and mod N: limb-pattern + boundary alphabets, unary ops on all, binary ops on all x extreme (thorough all x all). Fp2: all 24x24 boundary elements, unary on all, binary on all pairs. Fp4: all 6^4 elements over {0,1,p-1,2,seeded x2}, unary on all, binary on all x 64 (thorough all pairs). Fp12: one element per subset of zero components (4096) + basis + +-1: unary ops (sqr, inv, neg, double, triple, div2, Frobenius 1/2/3/6, to_bytes) on all, pow with boundary exponents and exponents with long runs of one bits, mul/add/sub against 64 partners, sparse line multiplication with every zero pattern of its 3 coefficients. Booth recoding for w in {5,7}: every k < 2^16, every d*2^(wi) and 2^(w(i+1)) - d*2^(wi). G1/G2: [j]P x 4 Jacobian representations + infinity (j incl. lambda, lambda^2 with lambda^2+lambda+1 = 0 mod N: different points with the same y), all ordered pairs through add / sub / add_full / equality, equality against the infinities the library itself produces (zero(), P-P, [N]P, g_mul(0)), unary ops, scalar multiplication over every Booth (window, digit) combination, boundary scalars, the point at infinity as the base, and every scalar within 300 (thorough 1200) of 0 and of N, all 37x64 fixed-base table entries. Oracle: polynomial-basis Fp12 = Fp[w]/(w^12+2) and affine big-integer group law.");
+    ctx.set_rule("Fp and mod N: limb-pattern + boundary alphabets, unary ops on all, binary ops on all x extreme (thorough all x all). Fp2: all 24x24 boundary elements, unary on all, binary on all pairs. Fp4: all 6^4 elements over {0,1,p-1,2,seeded x2}, unary on all, binary on all x 64 (thorough all pairs). Fp12: one element per subset of zero components (4096) + basis + +-1: unary ops (sqr, inv, neg, double, triple, div2, Frobenius 1/2/3/6, to_bytes) on all, pow with boundary exponents and exponents with long runs of one bits, mul/add/sub against 64 partners, sparse line multiplication with every zero pattern of its 3 coefficients. Booth recoding for w in {5,7}: every k < 2^16, every d*2^(wi) and 2^(w(i+1)) - d*2^(wi). G1/G2: [j]P x 4 Jacobian representations + infinity (j incl. lambda, lambda^2 with lambda^2+lambda+1 = 0 mod N: different points with the same y), all ordered pairs through add / sub / add_full / equality, equality against the infinities the library itself produces (zero(), P-P, [N]P, g_mul(0)), unary ops, scalar multiplication over every Booth (window, digit) combination, boundary scalars, the point at infinity as the base, the point at infinity in 5 (G1) / 15 (G2) Jacobian encodings (t^2 : t^3 : 0) met with finite points and itself, G1 points with x = 0 and with the smallest positive / largest x in 4 representations, and every scalar within 300 (thorough 1200) of 0 and of N, all 37x64 fixed-base table entries. Oracle: polynomial-basis Fp12 = Fp[w]/(w^12+2) and affine big-integer group law.");
     let mut cases: Vec<Case> = Vec::new();
     let hx = |x: &BigUint| hexbig(x);
     let mut g = SplitMix::new(ctx.seed, "c13");
@@ -969,6 +1033,60 @@ pub fn run(ctx: &Arc<Ctx>) {
     let mut sc2 = sc1.clone();
     for i in (0..256usize).step_by(ctx.tier.pick(5, 1)) {
         sc2.push(("2^i".into(), BigUint::one() << i));
+    }
+    // G1 points with x = 0 (5 is a square mod p) and with the smallest positive / the largest x, in 4 representations
+    {
+        let five = BigUint::from(5u32);
+        let mut xs: Vec<(BigUint, &str)> = vec![(BigUint::zero(), "x=0")];
+        let mut x = BigUint::one();
+        while sm9::sqrt_fp(&((&x * &x * &x + &five) % &pp)).is_none() {
+            x += 1u32;
+        }
+        xs.push((x, "smallest-positive-x"));
+        let mut x = &pp - 1u32;
+        while sm9::sqrt_fp(&((&x * &x * &x + &five) % &pp)).is_none() {
+            x -= 1u32;
+        }
+        xs.push((x, "largest-x"));
+        let mut count = 0;
+        for (x, tag) in &xs {
+            match sm9::sqrt_fp(&((x * x * x + &five) % &pp)) {
+                Some(y) => {
+                    for yy in [y.clone(), &pp - &y] {
+                        for l in [BigUint::one(), BigUint::from(2u32), &pp - 1u32, g.nonzero_below(&pp)] {
+                            cases.push(Case::G1UnaryXY { x: hx(x), y: hx(&yy), l: hx(&l), tag: (*tag).into() });
+                            count += 1;
+                        }
+                    }
+                }
+                None => ctx.note_bound(format!("G1 has no point with {}", tag)),
+            }
+        }
+        ctx.cov("g1_points_with_extreme_x", json!(count));
+    }
+    // the Jacobian encodings of the point at infinity, (t^2 : t^3 : 0) for t != 0 — not only the library's own (1 : 1 : 0) —
+    // met with finite points and with each other: O + Q, Q + O, Q - O, O - Q, O + O, 2O, -O, [3]O, (O + Q) + Q, equality.
+    // (Triples with Z = 0 that are not of this form, such as (0 : 1 : 0) or (0 : 0 : 0), denote no point and are not judged.)
+    {
+        let rinv = (BigUint::one() << 256usize).modpow(&(&pp - 2u32), &pp);
+        let ts = [BigUint::one(), BigUint::from(2u32), &pp - 1u32, rinv, g.nonzero_below(&pp)];
+        let mut count = 0;
+        for t in &ts {
+            let (ix, iy) = ((t * t) % &pp, (t * t * t) % &pp);
+            for (k, l) in [(BigUint::one(), BigUint::one()), (BigUint::from(5u32), BigUint::from(2u32)), (&n - 1u32, &pp - 1u32), (BigUint::one(), BigUint::zero())] {
+                cases.push(Case::G1InfOps { ix: hx(&ix), iy: hx(&iy), k: hx(&k), l: hx(&l) });
+                count += 1;
+            }
+            for t2 in [(t.clone(), BigUint::zero()), (BigUint::zero(), t.clone()), (t.clone(), BigUint::one())] {
+                let x2 = f2().sqr(&t2);
+                let y2 = f2().mul(&x2, &t2);
+                for (k, l) in [(BigUint::one(), f2().one()), (BigUint::from(5u32), (BigUint::from(2u32), BigUint::from(3u32))), (BigUint::one(), f2().zero())] {
+                    cases.push(Case::G2InfOps { ix: s2(&x2), iy: s2(&y2), k: hx(&k), l: s2(&l) });
+                    count += 1;
+                }
+            }
+        }
+        ctx.cov("infinity_encodings_x_partners", json!(count));
     }
     // the point at infinity as the base, canonical and non-canonical encodings, G1 and G2
     for t in [BigUint::one(), BigUint::from(2u32), g.nonzero_below(&pp)] {
